@@ -10,6 +10,8 @@ import (
 // typeKey: stable, line-free name of a named type relative to the module.
 func (g *Gen) typeKey(t types.Type) string {
 	switch t := t.(type) {
+	case *types.Alias:
+		return g.typeKey(types.Unalias(t))
 	case *types.Named:
 		o := t.Obj()
 		if o.Pkg() == nil {
